@@ -231,6 +231,24 @@ pub fn run_total(args: &Args) {
         emit("bare_prefix", &p, &mut tr, &mut res);
         let mut v = hb.clone(); v.extend_from_slice(&p); emit("header_plus_prefix", &v, &mut tr, &mut res);
     }
+    // (3b) records / volumes whose payload is a message stream with a type-31 block declaring far more gate bytes than
+    //      16 bits hold (gates x word) or than the data present: the decode layer below must turn it into an error
+    for (gates, word) in [(40_000u16, 16u8), (65_535, 16), (32_768, 16), (2_115, 255), (65_535, 255), (65_535, 8), (4_096, 16), (1, 0)] {
+        let mut m = crate::frames::msg_header_bytes(31, 1, 0xFFFF);
+        let mut drd = vec![0u8; 32];
+        drd[30..32].copy_from_slice(&1u16.to_be_bytes());
+        drd.extend_from_slice(&36u32.to_be_bytes());
+        let mut gen = vec![0u8; 28];
+        gen[0] = b'D'; gen[1..4].copy_from_slice(b"REF"); gen[8..10].copy_from_slice(&gates.to_be_bytes()); gen[19] = word;
+        drd.extend_from_slice(&gen);
+        drd.extend_from_slice(&vec![7u8; 64]);
+        m.extend_from_slice(&drd);
+        let mut raw_rec = prefix(m.len(), false).to_vec(); raw_rec.extend_from_slice(&m);
+        emit("type31_gate_bomb_record", &raw_rec, &mut tr, &mut res);
+        emit("type31_gate_bomb_stream", &m, &mut tr, &mut res);
+        emit("type31_gate_bomb_volume", &build_file(&hb, &[(bz(&m), true)]), &mut tr, &mut res);
+        emit("type31_gate_bomb_volume_raw", &build_file(&hb, &[(m.clone(), false)]), &mut tr, &mut res);
+    }
     for _ in 0..(if args.thorough { 400 } else { 60 }) { let mut v = valid.clone(); let n = 1 + rng.below(4); for _ in 0..n { let at = rng.below(v.len() as u64) as usize; v[at] ^= 1 << rng.below(8); } emit("corrupt_bzip2", &v, &mut tr, &mut res); let mut ch = chunk.clone(); let at = 6 + rng.below(ch.len() as u64 - 6) as usize; ch[at] = rng.next() as u8; emit("corrupt_chunk", &ch, &mut tr, &mut res); }
     res.sample(json!({"classes": ["alphabet (exhaustive)", "length", "random", "stratified", "truncated_volume", "truncated_chunk", "corrupt_prefix", "corrupt_bzip2"], "entry_points": entry_points(&[]).keys().collect::<Vec<_>>()}));
     tr.finish();
